@@ -94,10 +94,21 @@ func solve(query string, tmpdir, name string, timeoutS int, all bool) solveResul
 	}
 	ch := make(chan r, len(solvers))
 	var wg sync.WaitGroup
+	cvc5File := file
+	if q2, changed := cvc5Compat(query); changed {
+		cvc5File = filepath.Join(tmpdir, name+".cvc5.smt2")
+		if err := os.WriteFile(cvc5File, []byte(q2), 0o644); err != nil {
+			cvc5File = file
+		}
+	}
 	for _, sp := range solvers {
 		wg.Add(1)
 		go func(sp solverSpec) {
 			defer wg.Done()
+			file := file
+			if strings.HasPrefix(sp.name, "cvc5") {
+				file = cvc5File
+			}
 			st, out, ms := runOne(ctx, sp, file, timeoutS)
 			ch <- r{st, out, sp.name, ms}
 		}(sp)
